@@ -179,7 +179,34 @@ func (g *zgen) jsonObj(depth int) string {
 // snippet emits a few lines that display something.
 func (g *zgen) snippet(lines *[]string, usesJSON *bool) {
 	add := func(s string) { *lines = append(*lines, s) }
-	switch g.t.Draw(13) {
+	switch g.t.Draw(14) {
+	case 13: // keys that spell the same number differently, indexed by number and by text
+		spell := [][]string{{"1", "1.0", "1.00", "01", "1*10^0"}, {"2000", "2*10^3", "2000.0", "2e3"}, {"0", "0.0", "-0", "00"}}[g.t.Draw(3)]
+		num := []string{"1", "2000", "0"}[0]
+		switch spell[0] {
+		case "2000":
+			num = "2000"
+		case "0":
+			num = "0"
+		}
+		d := g.v()
+		var pairs []string
+		skipPlain := g.t.Draw(2) == 1 // whether the plain spelling itself is a key
+		for i, k := range spell {
+			if i == 0 && skipPlain {
+				continue
+			}
+			if g.t.Draw(4) != 0 {
+				pairs = append(pairs, fmt.Sprintf("“%s” = “值%d”", k, i))
+			}
+		}
+		if len(pairs) == 0 {
+			pairs = append(pairs, fmt.Sprintf("“%s” = “值”", spell[1]))
+		}
+		add(fmt.Sprintf("令%s = 【%s】", d, strings.Join(pairs, "，")))
+		add(fmt.Sprintf("（显示：%s）", d))
+		add(fmt.Sprintf("%s # %s = “新”", d, num))
+		add(fmt.Sprintf("（显示：%s、%s # %s）", d, d, num))
 	case 12: // deeply nested values (linked lists of dictionaries) that differ in one node: depth is a size like any other
 		depth := []int{3, 30, 63, 64, 65, 66, 100, 200}[g.t.Draw(8)]
 		diffAt := g.t.Draw(depth)
